@@ -590,6 +590,19 @@ class Verdict:
         self.violations.append((key, rdir))
         return True
 
+    def seen(self, key):
+        """has this finding key been settled already in this run (known finding confirmed, or violation
+        recorded)?  Further occurrences need no new confirmation run."""
+        if key in self.known:
+            return True
+        return any(k == key for k, _ in self.violations)
+
+    def again(self, key):
+        if key in self.known:
+            self.known_hit(key)
+        else:
+            self.count("violation_repeats")
+
     def known_hit(self, key, what="", replay_files=None):
         """another occurrence of an already confirmed known finding (no new confirmation run)"""
         self.count("known_finding_hits")
